@@ -126,9 +126,11 @@ package ggql
 //@   ensures[prefix-kept] forall i int :: 0 <= i && i < old(len(fl.list)) ==> fl.list[i] == old(fl.list[i])
 //@   ensures[never-replaced] forall k string :: old(fl.dict[k]) != nil ==> fl.dict[k] == old(fl.dict[k])
 //@   ensures[only-added] forall k string :: fl.dict[k] == old(fl.dict[k]) || (exists i int :: 0 <= i && i < len(fds) && fds[i].N == k && fl.dict[k] == fds[i])
+//@   ensures[same-map] old(fl.dict) != nil ==> fl.dict == old(fl.dict)
+//@   ensures[map-made] old(fl.dict) == nil ==> fl.dict != nil && fresh(fl.dict)
 //@   assigns fresh, fl.dict, fl.dict[], fl.list
 //@   loop 0: invariant[bounds] rangeindex+1 <= len(fds)
-//@           invariant[dict] fl.dict != nil
+//@           invariant[dict] fl.dict != nil && (old(fl.dict) != nil ==> fl.dict == old(fl.dict)) && (old(fl.dict) == nil ==> fresh(fl.dict))
 //@           invariant[len] len(fl.list) == old(len(fl.list)) + rangeindex + 1
 //@           invariant[added] forall i int :: 0 <= i && i <= rangeindex ==> fl.list[old(len(fl.list)) + i] == fds[i] && fl.dict[fds[i].N] == fds[i]
 //@           invariant[prefix] forall i int :: 0 <= i && i < old(len(fl.list)) ==> fl.list[i] == old(fl.list[i])
@@ -377,7 +379,7 @@ package ggql
 //@ axiom validDefInput(t *Input): t != nil ==> (validDef(box(t)) <==> (len(t.fields.list) > 0 && !badInputFieldUpTo(t.fields.list, len(t.fields.list))))
 
 //@ -- the type table and the directive table hold real types
-//@ eleminv []Type: v != nil && ptrval(v) != 0
+//@ eleminv []Type: v != nil && ptrval(v) != 0 && !is(v, *List) && !is(v, *NonNull)
 
 //@ spec nameOk(t Type) bool = ite(is(t, *Schema), len(t.Name()) == 0, goodName(t.Name(), t.Core()))
 //@ spec badEntryUpTo(ts []Type, n int) bool = exists j int {ts[j]} :: 0 <= j && j < n && (!validDef(ts[j]) || !nameOk(ts[j]))
